@@ -122,6 +122,10 @@ def check_case(sqlparse, text, opts):
             tricky = any((tn == 'Literal' or v.startswith('`')) and (v.count("'") % 2 or v.count('"') % 2)
                          for tn, v in _toks(text))
             sig += 'unpaired-quote-inside-dollar-or-backtick-token' if tricky else 'plain'
+        if bad[0] == 'clause-keyword-not-at-line-start' and '|WHERE|' in sig + '|':
+            inner = _where_inside_where(sqlparse, text)
+            if inner:
+                sig += '|inside-where-behind:' + inner
         return (bad[0], sig, f'{bad[2]}; output={out!r}')
     if which in ('strip_whitespace', 'spaces'):
         try:
@@ -133,6 +137,22 @@ def check_case(sqlparse, text, opts):
             ctx = _toks(out[:d + 1])
             near = 'near-comment' if any(_is_cm(t) for t, _ in ctx[-4:]) or '/*' in out[max(0, d - 12):d + 12] or '--' in out[max(0, d - 12):d + 12] else 'plain'
             return ('not-a-fixed-point', f'{which}|{near}', f'first={out!r} second={out2!r}')
+    return None
+
+
+def _where_inside_where(sqlparse, text):
+    """root cause of a WHERE that reindent leaves inside a line: the parser kept it as a plain keyword inside the
+    Where node of the query in front, because the set operator between them does not end a Where node"""
+    from sqlparse import sql, tokens as T
+    for st in sqlparse.parse(text):
+        for node, _ in oracles.walk_nodes(st, (st,), []):
+            if isinstance(node, sql.Where):
+                last_kw = None
+                for i, tok in enumerate(node.tokens):
+                    if tok.ttype is T.Keyword and i > 0 and tok.normalized == 'WHERE':
+                        return (last_kw or 'none').lower()
+                    if tok.ttype is T.Keyword and tok.normalized in ('INTERSECT', 'MINUS', 'UNION', 'UNION ALL', 'EXCEPT'):
+                        last_kw = tok.normalized
     return None
 
 
@@ -173,6 +193,21 @@ def reindent_product():
         if compact:
             o['compact'] = True
         out.append(o)
+    return out
+
+
+def operator_texts():
+    import itertools
+    op1 = ['=', '<', '>=', '<>', '!=', '+', '-', '/', '||', '%', '->', '@>', '<@']
+    op2 = ['', '-', '+', '~', '@', '!']
+    out = []
+    for a, b, l, m, r in itertools.product(op1, op2, ('', ' '), ('', ' '), ('', ' ')):
+        if not b and m:
+            continue
+        mid = l + a + m + b + r
+        out.append(f'select x{mid}y from t')
+        out.append(f'select 1 from t where x{mid}1 and z{mid}(2)')
+        out.append(f'update t set x = x{mid}y')
     return out
 
 
@@ -225,6 +260,34 @@ def run(tier, seed):
     samples += ms['samples'][:2]
     report.append({'label': 'scripts of 2-3 seed statements x every separator filler x the three options + reindent sub-options',
                    'scripts': ms['n'], 'option_sets': len(s_opts), 'format_calls': ms['extra']['format_calls']})
+    # ---- operator neighbourhoods: two operator tokens next to each other, with and without blanks
+    otexts = operator_texts()
+    o_opts = [dict(use_space_around_operators=True), dict(use_space_around_operators=True, strip_whitespace=True)]
+
+    def ev_ops(text, acc, sqlparse):
+        for o in o_opts:
+            acc.extra['format_calls'] += 1
+            bad = check_case(sqlparse, text, o) if len(o) == 1 else None
+            if len(o) == 2:
+                bad = check_case(sqlparse, text, dict(use_space_around_operators=True, strip_whitespace=False)) and None
+                try:
+                    out = sqlparse.format(text, **o)
+                    r = post_spaces(out)
+                    bad = (r[0], 'spaces+strip_whitespace', f'{r[1]}; output={out!r}') if r else None
+                except sqlparse.exceptions.SQLParseError:
+                    bad = None
+                except Exception as e:  # noqa
+                    bad = ('format-crash', oracles.crash_site(e), repr(e)[:160])
+            if bad:
+                acc.violation(e2.viol(bad[0], bad[1] + '|operators', bad[2], text, {}, 'operators', 1, o))
+        acc.case(text, True, outcome='operators', sample={'text': text})
+    mo = e2.run_texts(otexts, ev_ops, seed, setup=_setup)
+    viols += mo['viol']
+    vc.update(mo['viol_count'])
+    n_eval += mo['extra']['format_calls']
+    n_dist += mo['distinct']
+    report.append({'label': 'two adjacent operator tokens (13 binary x 6 unary) x blanks left / between / right x 3 contexts',
+                   'scripts': mo['n'], 'option_sets': len(o_opts), 'format_calls': mo['extra']['format_calls']})
     cov = {
         'evaluations': n_eval, 'distinct_nontrivial': n_dist,
         'rule': 'cases as in C06 (seed derivations, <= d deviations) x the three named options, reindent with every '
